@@ -26,34 +26,69 @@ def run(ctx):
     # ---- R1 ----------------------------------------------------------------------------------
     r1 = ctx.rule("C19.R1", "FdtReceiver::is_expired == (expires is None) || (get_server_time(now) > expires); FDTState::Expired is "
                             "assigned only in update_expired_state under enable_expired_check && is_expired() with state() == Complete", "E3 decision table + DOM")
-    f = prog.fn(FR + "::is_expired")
-    ctx.analysed(f.path)
-    # the instance's expiry is read as `inner.expires` or through the accessor get_expiration_time() (checked below to return that field)
-    t = polarity.Table(f, name_sign={"d": r"get_server_time"}, name_bool={"exp_some": r"(expires|FdtReceiver::get_expiration_time\(&self\)) is Some"})
-    o = 1
-    for k, lab in t.seen_sign.items():
-        if lab == "d":
-            for n, v in k[0]:
-                if "get_server_time" in n:
-                    o = 1 if v > 0 else -1
-    polarity.check_table(r1, t, lambda sc: (not sc["exp_some"]) or (sc["d"] * o > 0), "is_expired", loc(f.sp), require_labels=("d", "exp_some"))
-    # the comparison is against the instance's Expires and the time passed in
-    sl = Slicer(f.body)
-    cmp_ok = False
-    for k, lab in t.seen_sign.items():
-        if lab == "d":
-            txt = polarity.show_key(k)
-            if re.search(r"get_server_time\(&self, now\)", txt) and ("expires" in txt or "FdtReceiver::get_expiration_time(&self)@Some.0" in txt):
-                cmp_ok = True
-    if "get_expiration_time" in " ".join(polarity.show_key(k) for k in t.seen_sign):
-        ge = prog.funcs.get(FR + "::get_expiration_time")
-        gets = [show(Slicer(ge.body).expand(e_), 200) for _b, e_ in ret_assign_blocks(ge.body, lambda e_: True)] if ge is not None else []
-        if not (gets and all(re.search(r"\.expires$", z_) for z_ in gets)):
-            cmp_ok = False
-    if cmp_ok:
-        r1.ok("is_expired compares get_server_time(now) with expires", "", loc(f.sp))
+    if FR + "::is_expired" in prog.funcs:
+        f = prog.fn(FR + "::is_expired")
+        ctx.analysed(f.path)
+        # the instance's expiry is read as `inner.expires` or through the accessor get_expiration_time() (checked below to return that field)
+        t = polarity.Table(f, name_sign={"d": r"get_server_time"}, name_bool={"exp_some": r"(expires|FdtReceiver::get_expiration_time\(&self\)) is Some"})
+        o = 1
+        for k, lab in t.seen_sign.items():
+            if lab == "d":
+                for n, v in k[0]:
+                    if "get_server_time" in n:
+                        o = 1 if v > 0 else -1
+        polarity.check_table(r1, t, lambda sc: (not sc["exp_some"]) or (sc["d"] * o > 0), "is_expired", loc(f.sp), require_labels=("d", "exp_some"))
+        # the comparison is against the instance's Expires and the time passed in
+        sl = Slicer(f.body)
+        cmp_ok = False
+        for k, lab in t.seen_sign.items():
+            if lab == "d":
+                txt = polarity.show_key(k)
+                if re.search(r"get_server_time\(&self, now\)", txt) and ("expires" in txt or "FdtReceiver::get_expiration_time(&self)@Some.0" in txt):
+                    cmp_ok = True
+        if "get_expiration_time" in " ".join(polarity.show_key(k) for k in t.seen_sign):
+            ge = prog.funcs.get(FR + "::get_expiration_time")
+            gets = [show(Slicer(ge.body).expand(e_), 200) for _b, e_ in ret_assign_blocks(ge.body, lambda e_: True)] if ge is not None else []
+            if not (gets and all(re.search(r"\.expires$", z_) for z_ in gets)):
+                cmp_ok = False
+        if cmp_ok:
+            r1.ok("is_expired compares get_server_time(now) with expires", "", loc(f.sp))
+        else:
+            r1.violation("is_expired compares get_server_time(now) with expires", "compared quantities: %s" % [polarity.show_key(k) for k in t.seen_sign], loc(f.sp))
     else:
-        r1.violation("is_expired compares get_server_time(now) with expires", "compared quantities: %s" % [polarity.show_key(k) for k in t.seen_sign], loc(f.sp))
+        # the private predicate was folded into its only caller, update_expired_state: the same decision is then read off that function - the
+        # state is written (a RefCell::borrow_mut happens) exactly when state() == Complete && enable_expired_check && (expires is None ||
+        # get_server_time(now) > expires)
+        f = prog.fn(FR + "::is_expired", host_ok=True)
+        ctx.analysed(f.path)
+        t = polarity.Table(f, name_sign={"d": r"get_server_time"},
+                           name_bool={"exp_some": r"(expires|FdtReceiver::get_expiration_time\(&self\)) is Some", "enable": r"^self\.enable_expired_check$"},
+                           name_enum={"state": (r"FdtReceiver::state\(", ("Receiving", "Complete", "Error", "Expired"))},
+                           call_filter=r"RefCell.*::borrow_mut$")
+        need = [l_ for l_ in ("d", "exp_some", "enable", "state") if l_ not in t.labels_found()]
+        if need:
+            raise model.AnchorMissing("is_expired (folded into %s): conditions %s not recognised (%s ; %s)" % (
+                f.path.split("::")[-1], need, [polarity.show_key(k) for k in t.seen_sign], list(t.seen_bool)))
+        o = 1
+        for k, lab in t.seen_sign.items():
+            if lab == "d":
+                for n, v in k[0]:
+                    if "get_server_time" in n:
+                        o = 1 if v > 0 else -1
+        for sc in t.scenarios():
+            want = sc["state"] == "Complete" and sc["enable"] and ((not sc["exp_some"]) or sc["d"] * o > 0)
+            got = set(bool(calls) for _r, calls in t.results(sc))
+            key = "is_expired (in %s) [%s]" % (f.path.split("::")[-1], ", ".join("%s=%s" % kv for kv in sorted(sc.items())))
+            if got == {want}:
+                r1.ok(key, "state written: %s" % want, loc(f.sp))
+            else:
+                r1.violation(key, "the expiry state is %s under this ordering, expected %s" % (
+                    "written on some path and not on another" if len(got) > 1 else ("written" if True in got else "not written"), "written" if want else "left alone"), loc(f.sp))
+        txts = [polarity.show_key(k) for k, lab in t.seen_sign.items() if lab == "d"]
+        if any(re.search(r"get_server_time\(&self, now\)", x_) and ("expires" in x_ or "get_expiration_time(&self)@Some.0" in x_) for x_ in txts):
+            r1.ok("is_expired compares get_server_time(now) with expires", "", loc(f.sp))
+        else:
+            r1.violation("is_expired compares get_server_time(now) with expires", "compared quantities: %s" % txts, loc(f.sp))
     u = prog.fn(FR + "::update_expired_state")
     ctx.analysed(u.path)
     uf = Flow(u.body)
@@ -74,8 +109,10 @@ def run(ctx):
                 continue
             fs = uf.facts_at(a["bb"])
             c1 = any(ff[0][0] == "true" and ff[1] and show(ff[0][1]) == "self.enable_expired_check" for ff in fs)
-            c2 = any(ff[0][0] == "true" and ff[1] and "FdtReceiver::is_expired" in show(ff[0][1]) for ff in fs)
-            c3 = any(ff[0][0] == "eq" and ff[1] and "FdtReceiver::state" in show(ff[0][1]) + show(ff[0][2]) and "Complete" in show(ff[0][1]) + show(ff[0][2]) for ff in fs)
+            c2 = any(ff[0][0] == "true" and ff[1] and "FdtReceiver::is_expired" in show(ff[0][1]) for ff in fs) or \
+                prog.folded().get(FR + "::is_expired") == u.path      # folded into this function: decided by the table above
+            c3 = any(ff[0][0] == "eq" and ff[1] and "FdtReceiver::state" in show(ff[0][1]) + show(ff[0][2]) and "Complete" in show(ff[0][1]) + show(ff[0][2]) for ff in fs) or \
+                any((lambda et_: et_ is not None and et_[1] == "Complete" and et_[2] and "FdtReceiver::state" in show(et_[0]))(enum_test(ff)) for ff in fs)
             if c1 and c2 and c3:
                 r1.ok(key, "under enable_expired_check && is_expired(now) && state() == Complete", loc(a["sp"]))
             else:
@@ -207,8 +244,22 @@ def run(ctx):
             from ..cfg import facts_of
             ex = Slicer(p.body).expand(a["value"], stop=(SCT, "now"))
             direct = any(aa[0] == "lt" and t2 and show(polarity.strip(aa[1])) == SCT and show(polarity.strip(aa[2])) == "now" for (aa, t2) in facts_of(ex, True))
+        per_arm = False
+        if not direct and a["value"][0] == "var" and not a["value"][2]:
+            # `let (is_late, offset) = if res < now { (true, ..) } else { (false, ..) }`: the flag is a constant chosen per arm
+            vd_ = value_defs(Slicer(p.body), a["value"][1])
+            if len(vd_) >= 2:
+                per_arm = True
+                for (ev_, bv_) in vd_:
+                    fs_ = pf_.facts_at(bv_)
+                    lt_ = [t2 for (aa, t2) in fs_ if aa[0] == "lt" and show(aa[1]) == SCT and show(aa[2]) == "now"]
+                    ge_ = [t2 for (aa, t2) in fs_ if aa[0] == "le" and show(aa[1]) == "now" and show(aa[2]) == SCT]
+                    if not ((show(ev_) == "True" and lt_ and all(lt_)) or (show(ev_) == "False" and ge_ and all(ge_))):
+                        per_arm = False
         if direct:
             r3.ok("FdtReceiver::push late = (res < now)", "the flag is the comparison itself", loc(a["sp"]))
+        elif per_arm:
+            r3.ok(key, "true / false chosen on the matching arm of `res < now`", loc(a["sp"]))
         elif (v == "True" and lt and all(lt)) or (v == "False" and ge and all(ge)):
             r3.ok(key, "on the matching edge of `res < now`", loc(a["sp"]))
         else:
@@ -222,9 +273,18 @@ def run(ctx):
         cands = [(a["value"], a["bb"])]
         inner_ = [z for z in walk(a["value"]) if z[0] == "var" and not z[2]]
         if not any(c[0] == "call" and c[1].endswith("SystemTime::duration_since") for c in walk(a["value"])) and len(inner_) == 1:
-            ds_ = [(e_, bb_) for (pj_, e_, bb_) in psl_.var_defs().get(inner_[0][1], []) if pj_ == ""]
+            ds_ = value_defs(psl_, inner_[0][1])
             if ds_:
                 cands = ds_
+        # `let (earlier, later) = if late { (res, now) } else { (now, res) }; Some(later.duration_since(earlier))`: one call, operands chosen per
+        # arm - check each arm's pair where the arm builds it
+        cs0 = [c for c in walk(a["value"]) if c[0] == "call" and c[1].endswith("SystemTime::duration_since")]
+        if len(cands) == 1 and cs0:
+            r_, g_ = polarity.strip(cs0[0][2][0]), polarity.strip(cs0[0][2][1])
+            if r_[0] == "var" and g_[0] == "var" and not r_[2] and not g_[2]:
+                vr_, vg_ = value_defs(psl_, r_[1]), value_defs(psl_, g_[1])
+                if len(vr_) >= 2 and [b_ for _e, b_ in vr_] == [b_ for _e, b_ in vg_]:
+                    cands = [(("call", cs0[0][1], (er_, eg_), cs0[0][3]), b_) for (er_, b_), (eg_, _b2) in zip(vr_, vg_)]
         for val_, bb_ in cands:
             n += 1
             fs = pf_.facts_at(bb_)
